@@ -91,6 +91,8 @@ def generate(prop, rng, tier):
         cfg['halfcomplex'] = rng.random() < 0.6
     else:
         cfg['halfcomplex'] = False
+        # the option is documented to have no effect on complex domains
+        cfg['hc_arg'] = rng.random() < 0.25
     if cls == 'FT':
         cfg['shift'] = [rng.random() < 0.5 for _ in cfg['axes']]
         if cfg['halfcomplex']:
@@ -175,6 +177,8 @@ def build(cfg, impl=None):
           'sign': cfg['sign']}
     if np.dtype(cfg['dtype']).kind == 'f':
         kw['halfcomplex'] = cfg['halfcomplex']
+    elif cfg.get('hc_arg'):
+        kw['halfcomplex'] = True
     try:
         if cfg['cls'] == 'DFT':
             S = o.uniform_discr([0.0] * nd, [float(n) for n in cfg['shape']],
